@@ -39,7 +39,8 @@ ASSUMPTIONS = [
     "parentheses; component references are opaque atoms (dotted names / integer subscripts)",
     "string literals are escape-free (pymoca documents no unescaping)",
     "real literals are in double range; their exact value is the correctly rounded double of the decimal lexeme",
-    "zero-argument calls `f()` / `initial()` are a separate stream (listed finding C03-F1)",
+    "zero-argument calls `f()` / `initial()` are a separate stream (finding C03-F1, fixed in /repo by 3a63bdb; the "
+    "stream stays as a regression check)",
 ]
 
 BIN = {"*": "mul", "/": "div", ".*": "emul", "./": "ediv", "+": "add", "-": "sub", ".+": "eadd", ".-": "esub",
@@ -209,6 +210,145 @@ def depth(t):
     if k == "call":
         return 1 + max([0] + [depth(a) for a in t[2]])
     return 0
+
+
+# --------------------------------------------------------------------------------------------
+# Reference reader: recursive descent straight from the Modelica specification's grammar (B.2.7), one function per
+# nonterminal.  It is independent of the printer above, of pymoca and of the Lean model; `None` = not derivable.
+
+class _Reject(Exception):
+    pass
+
+
+class SpecParser:
+    def __init__(self, toks):
+        self.t, self.i = toks, 0
+
+    def peek(self):
+        return self.t[self.i] if self.i < len(self.t) else None
+
+    def take(self, tok=None):
+        cur = self.peek()
+        if cur is None or (tok is not None and cur != tok):
+            raise _Reject()
+        self.i += 1
+        return cur
+
+    def expression(self):
+        # expression : simple_expression | if expression then expression { elseif expression then expression } else expression
+        if self.peek() == "if":
+            self.take()
+            branches = []
+            c = self.expression()
+            self.take("then")
+            branches.append([c, self.expression()])
+            while self.peek() == "elseif":
+                self.take()
+                c = self.expression()
+                self.take("then")
+                branches.append([c, self.expression()])
+            self.take("else")
+            return ["if", branches, self.expression()]
+        return self.logical_expression()     # simple_expression without the `:` forms
+
+    def logical_expression(self):
+        # logical_term { or logical_term }
+        e = self.logical_term()
+        while self.peek() == "or":
+            self.take()
+            e = ["bin", "or", e, self.logical_term()]
+        return e
+
+    def logical_term(self):
+        # logical_factor { and logical_factor }
+        e = self.logical_factor()
+        while self.peek() == "and":
+            self.take()
+            e = ["bin", "and", e, self.logical_factor()]
+        return e
+
+    def logical_factor(self):
+        # [ not ] relation
+        if self.peek() == "not":
+            self.take()
+            return ["pre", "not", self.relation()]
+        return self.relation()
+
+    def relation(self):
+        # arithmetic_expression [ relational_operator arithmetic_expression ]
+        e = self.arithmetic_expression()
+        if isinstance(self.peek(), str) and self.peek() in RELOPS:
+            o = self.take()
+            e = ["bin", o, e, self.arithmetic_expression()]
+        return e
+
+    def arithmetic_expression(self):
+        # [ add_operator ] term { add_operator term }
+        if isinstance(self.peek(), str) and self.peek() in ADDOPS:
+            o = self.take()
+            if o not in ("+", "-"):
+                raise _Reject()   # unary `.+` `.-` are outside the property's quantifier (and pymoca's grammar)
+            e = ["pre", o, self.term()]
+        else:
+            e = self.term()
+        while isinstance(self.peek(), str) and self.peek() in ADDOPS:
+            o = self.take()
+            e = ["bin", o, e, self.term()]
+        return e
+
+    def term(self):
+        # factor { mul_operator factor }
+        e = self.factor()
+        while isinstance(self.peek(), str) and self.peek() in MULOPS:
+            o = self.take()
+            e = ["bin", o, e, self.factor()]
+        return e
+
+    def factor(self):
+        # primary [ ( "^" | ".^" ) primary ]
+        e = self.primary()
+        if isinstance(self.peek(), str) and self.peek() in POWOPS:
+            o = self.take()
+            e = ["pow", o, e, self.primary()]
+        return e
+
+    def primary(self):
+        cur = self.peek()
+        if isinstance(cur, list):
+            self.take()
+            if cur[0] == "ref" and self.peek() == "(":
+                # ( component_reference | der | initial ) function_call_args ; positional arguments only
+                self.take()
+                args = []
+                if self.peek() != ")":
+                    args.append(self.expression())
+                    while self.peek() == ",":
+                        self.take()
+                        args.append(self.expression())
+                self.take(")")
+                return ["call", cur[1], args]
+            if cur[0] == "ref" and cur[1] in ("der", "initial"):
+                raise _Reject()
+            return [cur[0], cur[1]]
+        if cur == "(":
+            # "(" output_expression_list ")" with exactly one expression
+            self.take()
+            e = self.expression()
+            self.take(")")
+            return e
+        raise _Reject()
+
+
+def spec_parse(toks):
+    """The tree the specification's grammar derives for a token list, or None."""
+    p = SpecParser(toks)
+    try:
+        e = p.expression()
+    except _Reject:
+        return None
+    except RecursionError:
+        return None
+    return e if p.i == len(toks) else None
 
 
 # --------------------------------------------------------------------------------------------
@@ -667,30 +807,132 @@ def has_multi_paren(toks):
 # --------------------------------------------------------------------------------------------
 # the checker of one case
 
+def oracle_verdict(tree):
+    """Direct oracle on one source tree: None if the property holds, else (what, expected, observed)."""
+    toks = mprint(tree, 0)
+    text = text_of(toks)
+    envs = make_envs()
+    ref = spec_parse(toks)
+    if ref != strip_parens(tree):
+        # the printer of this harness and the reference reader of the specification's grammar disagree
+        raise HarnessError("printer / specification reader mismatch on %r: %r" % (text, ref))
+    want = [ev_src(ref, e) for e in envs]
+    st, node = impl_parse(text)
+    if st == "raised":
+        return "parse raised %s on a valid expression" % node, "an AST", node, st, node, want
+    if st == "syntax":
+        return "valid Modelica expression rejected as a syntax error", "an AST", "None", st, node, want
+    got = [ev_ast(node, e) for e in envs]
+    for i, (w, g) in enumerate(zip(want, got)):
+        if w is BOT and g is BOT:
+            continue
+        if type(w) is not type(g) or w != g:
+            return ("parsed tree evaluates differently from the source text under Modelica precedence",
+                    {"env": i, "value": str(w)}, {"env": i, "value": str(g), "ast": canon(node)}, st, node, want)
+    return None, None, None, st, node, want
+
+
+def subtrees(t):
+    k = t[0]
+    if k in ("bin", "pow"):
+        return [t[2], t[3]]
+    if k in ("pre",):
+        return [t[2]]
+    if k == "paren":
+        return [t[1]]
+    if k == "if":
+        return [x for cb in t[1] for x in cb] + [t[2]]
+    if k == "call":
+        return list(t[2])
+    return []
+
+
+def with_subtree(t, i, new):
+    k = t[0]
+    if k in ("bin", "pow"):
+        return [k, t[1], new, t[3]] if i == 0 else [k, t[1], t[2], new]
+    if k == "pre":
+        return [k, t[1], new]
+    if k == "paren":
+        return [k, new]
+    if k == "if":
+        flat = [x for cb in t[1] for x in cb] + [t[2]]
+        flat[i] = new
+        return ["if", [[flat[2 * j], flat[2 * j + 1]] for j in range(len(t[1]))], flat[-1]]
+    if k == "call":
+        a = list(t[2])
+        a[i] = new
+        return [k, t[1], a]
+    return t
+
+
+def _atom_like(t):
+    """an atom of the value type of `t` (first environment)"""
+    v = ev_src(t, make_envs()[0])
+    if isinstance(v, bool):
+        return ["bool", True]
+    if isinstance(v, str):
+        return ["str", "s"]
+    return ["num", "2"]
+
+
+def _smaller(t):
+    """smaller variants of a tree, most drastic first"""
+    subs = subtrees(t)
+    for s in subs:
+        if s[0] not in ("num", "str", "bool", "ref"):
+            yield s
+    if t[0] == "if" and len(t[1]) > 1:
+        for j in range(len(t[1])):
+            yield ["if", t[1][:j] + t[1][j + 1:], t[2]]
+    if t[0] == "call" and len(t[2]) > 1 and t[1] in ("f", "Lib.g"):
+        for j in range(len(t[2])):
+            yield ["call", t[1], t[2][:j] + t[2][j + 1:]]
+    for i, s in enumerate(subs):
+        if s[0] in ("num", "str", "bool", "ref"):
+            continue
+        yield with_subtree(t, i, _atom_like(s))
+    for i, s in enumerate(subs):
+        if s[0] in ("num", "str", "bool", "ref"):
+            continue
+        for c in _smaller(s):
+            yield with_subtree(t, i, c)
+
+
+def shrink(tree, what, budget=150):
+    """Greedy reduction of a failing tree while the same oracle message stays."""
+    calls = 0
+    cur = tree
+    progress = True
+    while progress and calls < budget:
+        progress = False
+        for c in _smaller(cur):
+            calls += 1
+            if calls > budget:
+                break
+            if oracle_verdict(c)[0] == what:
+                cur, progress = c, True
+                break
+    return cur
+
+
 def check_tree(ctx, drv, tree, stream="tree"):
     """One source tree (with its paren nodes): print, parse with the real code, oracle, model."""
     toks = mprint(tree, 0)
     text = text_of(toks)
     case = {"kind": stream, "tree": tree, "text": text}
-    envs = make_envs()
-    want = [ev_src(tree, e) for e in envs]
+    what, expected, observed, st, node, want = oracle_verdict(tree)
     nt = n_ops(tree) >= 2 and any(v is not BOT for v in want)
     ctx.case(case, nontrivial=nt, key=text)
-    st, node = impl_parse(text)
-    if st == "raised":
-        ctx.violation("parse raised %s on a valid expression" % node, case, expected="an AST", observed=node)
-    elif st == "syntax":
-        ctx.violation("valid Modelica expression rejected as a syntax error", case, expected="an AST", observed="None")
-    else:
-        got = [ev_ast(node, e) for e in envs]
-        for i, (w, g) in enumerate(zip(want, got)):
-            if w is BOT and g is BOT:
-                continue
-            if type(w) is not type(g) or w != g:
-                ctx.violation("parsed tree evaluates differently from the source text under Modelica precedence",
-                              case, expected={"env": i, "value": str(w)},
-                              observed={"env": i, "value": str(g), "ast": canon(node)})
-                break
+    if what is not None:
+        if n_ops(tree) > 2 and not any(v["what"] == what for v in ctx.violations):
+            small = shrink(tree, what)
+            if small is not tree:
+                w2, e2, o2 = oracle_verdict(small)[:3]
+                if w2 == what:
+                    ctx.violation(what, {"kind": stream, "tree": small, "text": text_of(mprint(small, 0)),
+                                         "shrunk_from": text}, expected=e2, observed=o2)
+        ctx.violation(what, case, expected=expected, observed=observed)
     if drv is None:
         return
     ans = drv.ask({"op": "mprint", "tree": tree})
@@ -721,6 +963,20 @@ def check_tokens(ctx, drv, toks):
         if not any(toks[i:i + 2] == ["(", ")"] for i in range(len(toks))):
             ctx.violation("parse raised %s" % node, case, expected="an AST or None", observed=node)
         return
+    ref = spec_parse(toks)
+    if ref is not None:
+        ctx.count("tokens-in-specification-grammar")
+        if st != "ok":
+            ctx.violation("text derivable in the specification's expression grammar rejected as a syntax error", case,
+                          expected=ref, observed="None")
+        else:
+            for i, e in enumerate(make_envs()):
+                w, g = ev_src(ref, e), ev_ast(node, e)
+                if not (w is BOT and g is BOT) and (type(w) is not type(g) or w != g):
+                    ctx.violation("parsed tree evaluates differently from the source text under Modelica precedence",
+                                  case, expected={"env": i, "value": str(w), "reading": ref},
+                                  observed={"env": i, "value": str(g), "ast": canon(node)})
+                    break
     if drv is None:
         return
     ans = drv.ask({"op": "parse", "tokens": toks})
@@ -1175,7 +1431,7 @@ def run(ctx):
     for c in corpus.load("C03"):
         ctx.count("corpus")
         check_case(ctx, drv, c)
-    # known-finding stream (kept apart from everything else)
+    # zero-argument calls (finding C03-F1, fixed by 3a63bdb): kept apart from the main streams
     for t in (["call", "f", []], ["pre", "not", ["call", "initial", []]],
               ["bin", "*", ["num", "2"], ["call", "Lib.g", []]], ["call", "der", []],
               ["bin", "-", ["call", "max", [["call", "f", []], ["ref", "x"]]], ["num", "1"]]):
@@ -1231,6 +1487,14 @@ def run(ctx):
         if has_multi_paren(toks):
             ctx.count("tokens-skipped-output-list")
             continue
+        if any(t == ["ref", "der"] and (i + 1 >= len(toks) or toks[i + 1] != "(") for i, t in enumerate(toks)):
+            # `der` is a keyword: only `der ( … )` is in the fragment (the model carries it as a call name)
+            ctx.count("tokens-skipped-der-keyword")
+            continue
+        if len(toks) > 1 and isinstance(toks[-1], list) and toks[-1][0] == "str":
+            # `r = e "text";` — a trailing string is the equation's description string, not part of the expression
+            ctx.count("tokens-skipped-trailing-string")
+            continue
         ctx.count("stream-tokens")
         check_tokens(ctx, drv, toks)
     ctx.extra["exhaustive"] = False
@@ -1270,4 +1534,4 @@ MANIFEST = dict(
     technique="Lean 4 proof (structural induction, fuel monotonicity, absorption lemma for precedence climbing) + "
               "source translator with decidable obligations + model/implementation correspondence + exact-value oracle",
 )
-READY = False
+READY = True
